@@ -183,6 +183,13 @@ fn one_loop(cx: &mut Ctx, width: u16, kind: usize, debug: bool, case: u64) {
             for _ in 0..4 {
                 exits.push(Some(rng.below(3000) as u128));
             }
+            // and one long run per loop body: an exit in the upper half of the counter range,
+            // or no exit at all (the top counter bit and the final carry are only reached there)
+            exits.push(match kind {
+                0 => Some(32768),
+                1 => Some(32769 + rng.below(32766) as u128),
+                _ => None,
+            });
         }
     }
     for (ei, exit) in exits.iter().enumerate() {
